@@ -14,6 +14,7 @@ import (
 	"sort"
 	"strconv"
 	"strings"
+	"sync"
 	"time"
 
 	intoto "github.com/in-toto/in-toto-golang/in_toto"
@@ -23,6 +24,11 @@ import (
 )
 
 var opNames = []string{"record-plain", "record-file-link", "record-dir-link", "record-cycle", "record-twice-reached-link", "run", "sign-verify", "dump-load", "load-key", "verify-chain", "match-rules", "substitute", "dsse-control-characters", "malformed-pattern", "record-big-two-algorithms"}
+
+// operations of the auxiliary pass only (twelve at once): verification in which a sublayout contains a sublayout.
+// Not among the scheduled operations: inspections write their link files into the process's working directory
+// under names that depend on the layout only, so two such verifications are not independent calls to begin with.
+var auxOnlyOps = []string{"verify-nested"}
 
 var uniq int
 
@@ -132,6 +138,19 @@ func prepare(base string, op string, slot int) func() string {
 			sum, err := intoto.InTotoVerifyWithDirectory(md, map[string]intoto.Key{owner.ID: owner.Pub}, sup.LinkDir, run, "", map[string]string{}, nil, false)
 			if err != nil {
 				return "error: " + err.Error()
+			}
+			return gen.JSON(sum.GetPayload())
+		}
+	case "verify-nested":
+		// a chain with a sublayout inside a sublayout
+		nst := gen.BuildNested(dir, gen.NestedOpt{Depth: 3, DSSE: slot%2 == 1, Delegate: "authorised", ParentRules: "match"})
+		run := gen.FreshDir(dir, "rundir")
+		os.WriteFile(filepath.Join(run, "present"), []byte("x"), 0o644)
+		return func() string {
+			sum, err := intoto.InTotoVerifyWithDirectory(nst.Root, nst.Keys, nst.LinkDir, run, "", map[string]string{}, nil, false)
+			nst.MarkersPresent()
+			if err != nil {
+				return "error: " + strings.ReplaceAll(err.Error(), dir, "<dir>")
 			}
 			return gen.JSON(sum.GetPayload())
 		}
@@ -484,21 +503,63 @@ func init() {
 func runFree(c *mcx.Ctx) {
 	defer silence()()
 	base := gen.FreshDir(c.Work, "free")
+	// sublayouts are verified in the process's working directory (their inspections record it): an empty one
+	os.Chdir(gen.FreshDir(c.Work, "free-cwd"))
+	defer os.Chdir("/")
+	var mismatches []string
+	type round struct {
+		procs int
+		ops   []string
+	}
+	var rounds []round
 	for _, procs := range []int{2, 16} {
-		prev := setProcs(procs)
 		for _, g := range []int{8, 32} {
-			var bodies []func() string
+			var ops []string
 			for i := 0; i < g; i++ {
-				bodies = append(bodies, prepare(base, opNames[i%len(opNames)], i), prepare(base, opNames[(i*5+3)%len(opNames)], 100+i))
+				ops = append(ops, opNames[i%len(opNames)], opNames[(i*5+3)%len(opNames)])
 			}
+			rounds = append(rounds, round{procs, ops})
+		}
+	}
+	// the same operation many times at once: what an operation shares, it shares first of all with itself
+	for _, op := range append(append([]string{}, opNames...), auxOnlyOps...) {
+		ops := make([]string, 12)
+		for i := range ops {
+			ops[i] = op
+		}
+		rounds = append(rounds, round{16, ops})
+	}
+	for ri, rd := range rounds {
+		procs := rd.procs
+		prev := setProcs(procs)
+		{
+			g := len(rd.ops) / 2
+			var bodies []func() string
+			var alone []string
+			for i, op := range rd.ops {
+				b := prepare(base, op, ri*1000+i)
+				bodies = append(bodies, b)
+				if ri > 0 {
+					alone = append(alone, b()) // the result of the body run by itself (round 0 starts cold: first use under concurrency)
+				}
+			}
+			_ = g
 			start := make(chan struct{})
 			done := make(chan struct{}, len(bodies))
-			for _, b := range bodies {
-				b := b
+			var mu sync.Mutex
+			for bi, b := range bodies {
+				bi, b := bi, b
 				go func() {
 					<-start
 					for r := 0; r < 3; r++ {
-						b()
+						got := b()
+						if alone != nil && got != alone[bi] {
+							mu.Lock()
+							if len(mismatches) < 5 {
+								mismatches = append(mismatches, fmt.Sprintf("MISMATCH: operation %s (round %d, %d bodies, GOMAXPROCS=%d) run concurrently gives %s; run alone %s", rd.ops[bi], ri, len(bodies), procs, clip(got), clip(alone[bi])))
+							}
+							mu.Unlock()
+						}
 					}
 					done <- struct{}{}
 				}()
@@ -521,6 +582,9 @@ func runFree(c *mcx.Ctx) {
 			c.Outcome(fmt.Sprintf("free-running|GOMAXPROCS=%d|goroutines=%d", procs, len(bodies)))
 		}
 		setProcs(prev)
+	}
+	if len(mismatches) > 0 {
+		os.WriteFile(filepath.Join(mcx.Root(), "work", "race.log.mismatch"), []byte(strings.Join(mismatches, "\n")+"\n"), 0o644)
 	}
 	c.Sample("free-running bodies under -race; reports (if any) are in work/race.log.*")
 }
